@@ -42,7 +42,8 @@ PROPS = {
         "runs": [READ_RUN],
         "oracles": ["c02-"], "cs": cs_life.C02_CS,
         "rule": "case = (mode x sync/async x executor x ReadBufferSize x per-loop limit x transport x NPoller, op sequence of arrivals, "
-                "FIN/error/EINTR, faithful and duplicate reports, task steps incl. forced gate schedules); distinct by hash of "
+                "FIN/error/EINTR, write backlog (writing event armed), faithful and duplicate reports, task steps incl. forced gate schedules, further "
+                "stream conns with descriptor number reuse); distinct by hash of "
                 "(configuration, op kinds with size classes relative to the buffer and the limit, event flags, task pause points); "
                 "non-trivial iff at least one report was delivered to the poller",
         "assumptions": ["epoll readiness semantics: LT reports while readable; ET reports an arrival once; ONESHOT reports only while "
